@@ -8,6 +8,7 @@ from __future__ import annotations
 import collections
 from typing import Any, Callable, Dict, Iterable, List, Optional, Tuple
 
+from .core import Budget
 from .drivers import Harness
 
 
@@ -19,6 +20,7 @@ class Closure:
         self.max_depth = 0
         self.capped = False
         self.keys: set = set()
+        self.nonterminating: List[Any] = []  # histories whose last step blew the budget
 
 
 def build(h: Harness, engine: str, hist: List[Any], send=None):
@@ -55,7 +57,12 @@ def bfs(
     """
     canon = canon or (lambda d: d.observe())
     cl = Closure()
-    d0, err = build(h, engine, [], send)
+    try:
+        d0, err = build(h, engine, [], send)
+    except Budget:
+        cl.nonterminating.append([])
+        cl.states = 1
+        return cl
     cl.executions += 1
     try:
         k0 = canon(d0)
@@ -80,12 +87,17 @@ def bfs(
             cl.executions += 1
             try:
                 mark = d.rec.mark()
-                if send is not None:
-                    send(d, ev)
-                elif isinstance(ev, tuple):
-                    d.send(ev[0], **ev[1])
-                else:
-                    d.send(ev)
+                try:
+                    if send is not None:
+                        send(d, ev)
+                    elif isinstance(ev, tuple):
+                        d.send(ev[0], **ev[1])
+                    else:
+                        d.send(ev)
+                except Budget:
+                    cl.nonterminating.append(hist + [ev])
+                    cl.transitions += 1
+                    continue
                 cl.transitions += 1
                 nhist = hist + [ev]
                 cont = on_step(d, hist, ev, mark, key)
